@@ -11,7 +11,7 @@ from ..core import Result, fs, fl, F
 
 ID = "C07"
 RULE = ("seeded VRPTW instances (2..4 nodes, arc sets of varying density, costs of either sign) x V in 1..3 x L in 3..5 x strict/non-strict x "
-        "optional vehicle surcharges (via the heuristic); all 2^n vectors for n <= 13 (thorough 16) against an independent enumeration of all walk "
+        "optional vehicle surcharges (via the heuristic, 20 % of the planted cases); all 2^n vectors for n <= 13 (both tiers; instances with n > 16 are skipped) against an independent enumeration of all walk "
         "assignments (absorbing depot, every customer once); objective and decoding compared on every feasible vector; strict mode: every walk "
         "simulated against the time windows; non-trivial = at least one feasible walk assignment and one infeasible vector; distinct = distinct case")
 ASSUMPTIONS = [
